@@ -5,10 +5,10 @@ package main
 
 import (
 	"fmt"
-	"regexp"
 	"go/constant"
 	"go/token"
 	"go/types"
+	"regexp"
 	"sort"
 	"strconv"
 	"strings"
@@ -21,12 +21,12 @@ import (
 type PlaceKind int
 
 const (
-	PField PlaceKind = iota // field of a struct (by ref or inside another place)
-	PElem                   // element of a backing array
-	PCell                   // cell holding a non-struct value (or whole struct by ref when Elem is struct)
-	PArr                    // pointer to an array object (backing array ref)
-	POpaque                 // materialised interior pointer: nothing known
-	PStrByte                // byte of a string reached through unsafe.StringData / unsafe.Add (read only)
+	PField   PlaceKind = iota // field of a struct (by ref or inside another place)
+	PElem                     // element of a backing array
+	PCell                     // cell holding a non-struct value (or whole struct by ref when Elem is struct)
+	PArr                      // pointer to an array object (backing array ref)
+	POpaque                   // materialised interior pointer: nothing known
+	PStrByte                  // byte of a string reached through unsafe.StringData / unsafe.Add (read only)
 )
 
 type Place struct {
@@ -80,52 +80,54 @@ type blockState struct {
 }
 
 type FnExec struct {
-	W        *World
-	Fn       *ssa.Function
-	C        *Contract
-	lines    []string          // declarations/definitions/assumptions in order
-	declared map[string]bool   // heap arrays & misc symbols declared
-	regs     map[ssa.Value]Val // SSA registers
-	bs       map[*ssa.BasicBlock]*blockState
-	edgeCond map[[2]int]string
-	cur      *blockState
-	curBlock *ssa.BasicBlock
-	nfresh   int
-	obls     []*Obligation
-	kindOrd  map[string]int
-	heap0    heapState // heap at entry (for old())
-	params   map[string]Val
-	fresh    []string // refs allocated in this activation
-	checked  bool     // arith checked
-	backEdge map[[2]int]bool
-	loopHead map[int]*loopInfo
-	retVals  [][]Val
-	deferred []deferredCall
+	W              *World
+	Fn             *ssa.Function
+	C              *Contract
+	snaps          map[string]cval   // loop snapshots in force (name -> value at the loop head)
+	noAssumeNext   bool              // the next obligation is a recorded finding: check it, do not assume it
+	lines          []string          // declarations/definitions/assumptions in order
+	declared       map[string]bool   // heap arrays & misc symbols declared
+	regs           map[ssa.Value]Val // SSA registers
+	bs             map[*ssa.BasicBlock]*blockState
+	edgeCond       map[[2]int]string
+	cur            *blockState
+	curBlock       *ssa.BasicBlock
+	nfresh         int
+	obls           []*Obligation
+	kindOrd        map[string]int
+	heap0          heapState // heap at entry (for old())
+	params         map[string]Val
+	fresh          []string // refs allocated in this activation
+	checked        bool     // arith checked
+	backEdge       map[[2]int]bool
+	loopHead       map[int]*loopInfo
+	retVals        [][]Val
+	deferred       []deferredCall
 	recordBranches bool
-	branches []branchRec
-	returns  []retRec
-	frame    []modTarget
-	frameOK  bool
-	nalloc   int
-	strConst map[string]string
-	hashStated map[int]bool // type tags for which (hashable tag) has been stated
-	atcallHit map[int]bool
-	inTypeInv bool
-	callOrd   map[ssa.Instruction]int
-	outside  []string // reasons the function leaves the supported subset
-	notes    []string
-	entryGh  map[string]string
-	inlDepth int
+	branches       []branchRec
+	returns        []retRec
+	frame          []modTarget
+	frameOK        bool
+	nalloc         int
+	strConst       map[string]string
+	hashStated     map[int]bool // type tags for which (hashable tag) has been stated
+	atcallHit      map[int]bool
+	inTypeInv      bool
+	callOrd        map[ssa.Instruction]int
+	outside        []string // reasons the function leaves the supported subset
+	notes          []string
+	entryGh        map[string]string
+	inlDepth       int
 	// hooks for families
-	onCall   func(fx *FnExec, call ssa.CallInstruction, args []Val, res *Val)
-	onReturn func(fx *FnExec, ret *ssa.Return, vals []Val)
-	onStore  func(fx *FnExec, instr ssa.Instruction, pl *Place, v Val)
-	onLoad   func(fx *FnExec, instr *ssa.UnOp, pl *Place)
-	onEntry  func(fx *FnExec)
+	onCall     func(fx *FnExec, call ssa.CallInstruction, args []Val, res *Val)
+	onReturn   func(fx *FnExec, ret *ssa.Return, vals []Val)
+	onStore    func(fx *FnExec, instr ssa.Instruction, pl *Place, v Val)
+	onLoad     func(fx *FnExec, instr *ssa.UnOp, pl *Place)
+	onEntry    func(fx *FnExec)
 	ghostTouch func(call ssa.CallInstruction) bool // does this call update a ghost? (nil = every call may)
 	rely       map[string]func(before, after string) string
-	hookGhost  string // name of the ghost updated by the family's onCall hook
-	private    []privateObj // fresh objects that never escape: unchanged by any call
+	hookGhost  string          // name of the ghost updated by the family's onCall hook
+	private    []privateObj    // fresh objects that never escape: unchanged by any call
 	noFrame    map[string]bool // private objects written inside the loop whose head is being entered
 }
 
@@ -212,7 +214,7 @@ func (fx *FnExec) oblige(kind, goal string, instr ssa.Instruction, comment strin
 	fx.obls = append(fx.obls, o)
 	// obligations at a return are independent of each other (the path ends there); elsewhere
 	// execution continues only if the obligation held
-	if _, isRet := instr.(*ssa.Return); !isRet {
+	if _, isRet := instr.(*ssa.Return); !isRet && !fx.noAssumeNext {
 		fx.assume(goal)
 	}
 	return o
@@ -327,7 +329,9 @@ func (w *World) structDecls() string {
 	return b.String()
 }
 
-func sortID(s string) string { return sanitize(strings.ReplaceAll(strings.ReplaceAll(s, "(", ""), ")", "")) }
+func sortID(s string) string {
+	return sanitize(strings.ReplaceAll(strings.ReplaceAll(s, "(", ""), ")", ""))
+}
 
 // zero value term of a type
 func (fx *FnExec) zero(t types.Type) string {
